@@ -6,7 +6,8 @@ dynamic flags per element read by the caller at the moment of an operation (node
 Spec format (all JSON-safe; port numbers are ints inside lists, never dict keys):
 
     {"family": "...", "dur": 1,
-     (any node may carry "off": true = declared `operating_state: OFF`)
+     (any node may carry "off": true = declared `operating_state: OFF`; a host may carry "nic2": [ip, plen] = a second
+      NIC declared under `network_interfaces: {2: ...}`, port 2)
      "nodes": [{"k": "switch", "name": "s0"},
                {"k": "host", "name": "h0", "ip": "10.1.1.10", "plen": 24, "gw": "10.1.1.1"|None, "dns": bool},
                {"k": "router"|"firewall"|"wrouter", "name": "r0", "ifs": [[port, ip, plen], ...],
@@ -85,6 +86,8 @@ def build_cfg(spec: Dict, n_domains: int = 0) -> Dict:
                  "subnet_mask": mask_str(n["plen"]), **common}
             if n.get("gw"):
                 d["default_gateway"] = n["gw"]
+            if n.get("nic2"):
+                d["network_interfaces"] = {2: {"ip_address": n["nic2"][0], "subnet_mask": mask_str(n["nic2"][1])}}
             if n.get("dns"):
                 d["services"] = [{"type": "dns-server", "options": {
                     "domain_mapping": {f"q{i}.test": "10.99.0.1" for i in range(n_domains)}}}]
@@ -161,6 +164,9 @@ class Ref:
             if n["k"] == "host":
                 self.ifs[(name, 1)] = (ip2int(n["ip"]), n["plen"])
                 self.ports[name] = [1]
+                if n.get("nic2"):
+                    self.ifs[(name, 2)] = (ip2int(n["nic2"][0]), n["nic2"][1])
+                    self.ports[name] = [1, 2]
             elif n["k"] == "switch":
                 self.ports[name] = []
             else:
@@ -244,38 +250,73 @@ class Ref:
                 return p
         return None
 
+    def walk_alts(self, src: str, dst: int, st: State) -> List[Tuple[int, Set[Tuple[str, str]]]]:
+        """Ways host `src` may send a unicast packet to `dst`: list of (source port, possible fates).
+
+        A host sends on-link through its first ENABLED interface whose subnet contains dst (falling back to the default
+        gateway when the address does not answer ARP), otherwise to the default gateway through an enabled interface on
+        the gateway's subnet.  A multi-homed host may hold an ARP entry for an on-link address that it learned through
+        another interface (from routed replies while the on-link NIC was down) and then still use the gateway, so for
+        such hosts the gateway way is listed as a second alternative next to the on-link one.
+        """
+        if not st.up(src):
+            return [(1, {(DROP, "src-down")})]
+        h = self.node[src]
+        ports = [p for p in self.ports[src] if st.en(src, p)]
+        if not ports:
+            return [(1, {(DROP, "src-down")})]
+        if any(self.ifs[(src, p)][0] == dst for p in self.ports[src]):
+            return [(1, {(UNKNOWN, "self")})]
+        gw = ip2int(h["gw"]) if h.get("gw") else None
+
+        def via_gateway():
+            if gw is None:
+                return None, {(DROP, "no-gateway")}
+            pg = next((p for p in ports if in_net(gw, *self.ifs[(src, p)])), None)
+            if pg is None:
+                return None, {(DROP, "no-gateway")}
+            owners = [o for o in self.l2_owners(src, pg, gw, st) if st.up(o[0])]
+            if not owners:
+                return pg, {(DROP, "arp-unresolved")}
+            if len(owners) > 1:
+                return pg, {(UNKNOWN, "duplicate-address")}
+            return pg, self._arrive(owners[0], dst, st, {}, 0)
+
+        on = next((p for p in ports if in_net(dst, *self.ifs[(src, p)])), None)
+        if on is None:
+            pg, fates = via_gateway()
+            return [(pg or ports[0], fates)]
+        alts = []
+        owners = [o for o in self.l2_owners(src, on, dst, st) if st.up(o[0])]
+        if len(owners) > 1:
+            alts.append((on, {(UNKNOWN, "duplicate-address")}))
+        elif owners:
+            alts.append((on, self._arrive(owners[0], dst, st, {}, 0)))
+        else:
+            # HostARP falls back to the default gateway when the on-link address does not answer
+            pg, fates = via_gateway()
+            alts.append((pg or on, fates if gw is not None else {(DROP, "arp-unresolved")}))
+        if len(self.ports[src]) > 1 and owners:
+            pg, fates = via_gateway()
+            if pg is not None and pg != on:
+                alts.append((pg, fates))
+        return alts
+
     def walk(self, src: str, dst: int, st: State) -> Set[Tuple[str, str]]:
         """Possible fates of a unicast packet from host `src` to address `dst`: set of (outcome, node/reason)."""
-        if not st.up(src) or not st.en(src, 1):
-            return {(DROP, "src-down")}
-        h = self.node[src]
-        sip, spl = self.ifs[(src, 1)]
-        gw = ip2int(h["gw"]) if h.get("gw") else None
-        if dst == sip:
-            return {(UNKNOWN, "self")}
-        target = None
-        if in_net(dst, sip, spl):
-            if self.l2_owners(src, 1, dst, st):
-                target = dst
-            elif gw is not None:
-                target = gw  # HostARP falls back to the default gateway when the on-link address does not answer
-        else:
-            target = gw
-        if target is None:
-            return {(DROP, "no-gateway")}
-        owners = [o for o in self.l2_owners(src, 1, target, st) if st.up(o[0])]
-        if not owners:
-            return {(DROP, "arp-unresolved")}
-        if len(owners) > 1:
-            return {(UNKNOWN, "duplicate-address")}
-        return self._arrive(owners[0], dst, st, {}, 0)
+        out: Set[Tuple[str, str]] = set()
+        for _p, fates in self.walk_alts(src, dst, st):
+            out |= fates
+        return out
 
     def _arrive(self, at: Tuple[str, int], dst: int, st: State, choice: Dict[str, int], depth: int):
         n, _p = at
         k = self.kind[n]
         if k == "host":
-            if self.ifs[(n, 1)][0] == dst:
+            if self.ifs[at][0] == dst:
                 return {(DELIVERED, n)}
+            if any(self.ifs[(n, q)][0] == dst for q in self.ports[n]):
+                return {(UNKNOWN, "other-interface-of-addressee")}
             return {(MISDELIVERED, n)}
         # routing device
         if self._trace is not None:
@@ -344,20 +385,29 @@ class Ref:
             self._trace = None
         return n if res == {(DELIVERED, dst_host)} else -1
 
-    def exchange(self, a: str, b: str, st: State) -> Optional[bool]:
-        """True/False = request a->b and reply b->a both delivered / certainly not; None = reference undecided."""
-        fwd = self.walk(a, self.ifs[(b, 1)][0], st)
-        if any(o == UNKNOWN for o, _ in fwd):
-            return None
-        if fwd != {(DELIVERED, b)}:
-            if (DELIVERED, b) in fwd:
-                return None  # tie-dependent
-            return False
-        rev = self.walk(b, self.ifs[(a, 1)][0], st)
-        if any(o == UNKNOWN for o, _ in rev):
-            return None
-        if rev != {(DELIVERED, a)}:
-            if (DELIVERED, a) in rev:
+    def exchange(self, a: str, b: str, st: State, b_port: int = 1) -> Optional[bool]:
+        """True/False = request a->b (address of b's interface b_port) and the reply to the request's source address are
+        both delivered / certainly not, whichever way the hosts may send; None = reference undecided."""
+        verdicts = set()
+        for sp, fwd in self.walk_alts(a, self.ifs[(b, b_port)][0], st):
+            if any(o == UNKNOWN for o, _ in fwd):
                 return None
-            return False
-        return True
+            if fwd != {(DELIVERED, b)}:
+                if (DELIVERED, b) in fwd:
+                    return None  # tie-dependent
+                verdicts.add(False)
+                continue
+            if (a, sp) not in self.ifs:
+                return None
+            for _rp, rev in self.walk_alts(b, self.ifs[(a, sp)][0], st):
+                if any(o == UNKNOWN for o, _ in rev):
+                    return None
+                if rev != {(DELIVERED, a)}:
+                    if (DELIVERED, a) in rev:
+                        return None
+                    verdicts.add(False)
+                else:
+                    verdicts.add(True)
+        if len(verdicts) != 1:
+            return None
+        return verdicts.pop()
